@@ -2049,6 +2049,9 @@ func (ctx Ctx) funcDecl(d *ast.FuncDecl) coq.FuncDecl {
 }
 
 func (ctx Ctx) constSpec(spec *ast.ValueSpec) coq.ConstDecl {
+	if len(spec.Names) > 1 {
+		ctx.unsupported(spec, "multiple declarations in one spec (split them up)")
+	}
 	ident := spec.Names[0]
 	cd := coq.ConstDecl{
 		Name:     ident.Name,
